@@ -1013,7 +1013,9 @@ func (s *Server) cmdFSET(msg *Message) (resp.Value, commandDetails, error) {
 	if ok {
 		ofields := o.Fields()
 		for _, f := range fields {
-			prev := ofields.Get(f.Name())
+			// what is stored under this very name, not what the name
+			// resolves to as a path into a JSON field
+			prev := ofields.GetExact(f.Name())
 			if !prev.Value().Same(f.Value()) {
 				ofields = ofields.Set(f)
 				updateCount++
